@@ -3,6 +3,7 @@ package dec
 
 import (
 	"bufio"
+	"encoding/binary"
 	"errors"
 	"io"
 	"strconv"
@@ -362,4 +363,56 @@ func ThreeItemsGood(r *bufio.Reader) ([3]string, error) {
 		n++
 	}
 	return items, nil
+}
+
+// want:ENDIAN the count ignores the order it is given.
+func EncodeListBad(order binary.ByteOrder, vals []uint16) []byte {
+	res := make([]byte, 2+2*len(vals))
+	binary.LittleEndian.PutUint16(res, uint16(len(vals)))
+	for i, v := range vals {
+		order.PutUint16(res[2+2*i:], v)
+	}
+	return res
+}
+
+// clean:ENDIAN
+func EncodeListGood(order binary.ByteOrder, vals []uint16) []byte {
+	res := make([]byte, 2+2*len(vals))
+	order.PutUint16(res, uint16(len(vals)))
+	for i, v := range vals {
+		order.PutUint16(res[2+2*i:], v)
+	}
+	return res
+}
+
+// want:DI.RANGE a longer row indexes out of range.
+func RowBad(fields []string) ([3]float64, error) {
+	var res [3]float64
+	if len(fields) < 3 {
+		return res, errors.New("short row")
+	}
+	for i, x := range fields {
+		v, err := strconv.ParseFloat(x, 64)
+		if err != nil {
+			return res, err
+		}
+		res[i] = v
+	}
+	return res, nil
+}
+
+// clean:DI.RANGE
+func RowGood(fields []string) ([3]float64, error) {
+	var res [3]float64
+	if len(fields) != 3 {
+		return res, errors.New("wrong width")
+	}
+	for i, x := range fields {
+		v, err := strconv.ParseFloat(x, 64)
+		if err != nil {
+			return res, err
+		}
+		res[i] = v
+	}
+	return res, nil
 }
